@@ -66,11 +66,11 @@ Proof.
   exists d, segs, s. unfold lv_h0 in *. lv_segf_in A2. lv_segf_in A4. repeat split; assumption.
 Qed.
 
-(* ---- admit ---- *)
+(* ---- admit_segs ---- *)
 Lemma lv_admit_app cv una cw : forall sq sb nxt n sq' sb' nxt' n',
-  admit sq sb cv una nxt cw n = (sq', sb', nxt', n') -> exists adm, sb' = sb ++ adm.
+  admit_segs sq sb cv una nxt cw n = (sq', sb', nxt', n') -> exists adm, sb' = sb ++ adm.
 Proof.
-  induction sq as [|s t IH]; intros sb nxt n sq' sb' nxt' n' H; cbn [admit] in H.
+  induction sq as [|s t IH]; intros sb nxt n sq' sb' nxt' n' H; cbn [admit_segs] in H.
   - inversion H; subst. exists []. symmetry; apply app_nil_r.
   - destruct (itimediff nxt (u32 (una + cw)) >=? 0).
     + inversion H; subst. exists []. symmetry; apply app_nil_r.
@@ -79,9 +79,9 @@ Proof.
 Qed.
 
 Lemma lv_admit_stop cv una cw sq sb nxt n :
-  itimediff nxt (u32 (una + cw)) >= 0 -> admit sq sb cv una nxt cw n = (sq, sb, nxt, n).
+  itimediff nxt (u32 (una + cw)) >= 0 -> admit_segs sq sb cv una nxt cw n = (sq, sb, nxt, n).
 Proof.
-  intros H. destruct sq as [|s t]; [reflexivity|]. cbn [admit].
+  intros H. destruct sq as [|s t]; [reflexivity|]. cbn [admit_segs].
   destruct (itimediff nxt (u32 (una + cw)) >=? 0) eqn:E; [reflexivity|]. lv_b2z. lia.
 Qed.
 
@@ -463,7 +463,7 @@ Proof.
   assert (Hcwr : 1 <= lv_cw k < 32768).
   { unfold lv_cw. cbv zeta. pose proof (I_snd_wnd _ Hinv).
     destruct (nocwnd k =? 0) eqn:En; lv_b2z; [specialize (Hcw En)|]; lia. }
-  cbn [admit] in E4.
+  cbn [admit_segs] in E4.
   assert (Ec : (itimediff (snd_nxt k) (u32 (snd_una k + lv_cw k)) >=? 0) = false).
   { rewrite Z.geb_leb. apply Z.leb_gt. rewrite (I_snd_nxt _ Hinv), Hsb. change (qlen []) with 0.
     rewrite itimediff_index by (unfold H32; lia). lia. }
